@@ -40,3 +40,8 @@ package raftio
 //@ iface (db ILogDB) Close
 //@ iface (db ILogDB) BinaryFormat
 //@ iface (db ILogDB) Name
+
+// ---------------------------------------------------------------- recording a snapshot (C16)
+//@ ghost var gSnapRecorded bool
+//@ iface (db ILogDB) SaveSnapshots
+//@ ghostset gSnapRecorded := result == nil
